@@ -133,6 +133,7 @@ static const Hand HAND[] = {
 static std::vector<CorpusLine> g_all;
 static std::vector<int> g_instr, g_fill, g_rej, g_safe, g_rax, g_opt, g_bylen[16];
 static int g_ret = -1, g_dropped = 0, g_unsafe = 0;
+static bool g_collapsed = false;
 static std::unordered_map<std::string, int> g_flags;
 static const std::vector<int> g_empty;
 
@@ -236,7 +237,13 @@ bool corpus_init(std::string *why) {
         g_safe.push_back(idx);
     }
   }
+  if (g_instr.size() < 40 || g_ret < 0) {
+    if (why) *why = "corpus collapsed: only " + std::to_string(g_instr.size()) + " instruction lines are accepted by this tree";
+    g_collapsed = true;
+    return false;
+  }
   return stable;
 }
+bool corpus_collapsed() { return g_collapsed; }
 
 }  // namespace sim
